@@ -25,6 +25,9 @@ type c20Op struct {
 	Name  string `json:"name,omitempty"`
 	Value string `json:"value,omitempty"`
 	Src   string `json:"src,omitempty"` // word source (expand) or expression (eval)
+	// Args: for "args", the new value of the Args field, element 0 included;
+	// for "opts", Value holds the new option bits in decimal.
+	Args []string `json:"args,omitempty"`
 }
 
 type c20Case struct {
@@ -48,7 +51,7 @@ func c20Special(n string) bool {
 }
 
 // c20Expected returns what Get must report for a name.
-func c20Expected(name string, model map[string]string, args []string, opts interp.Option) (string, bool) {
+func c20Expected(name string, model map[string]string, args []string, opts interp.Option, arg0 string) (string, bool) {
 	switch name {
 	case "#":
 		return strconv.Itoa(len(args)), true
@@ -62,7 +65,7 @@ func c20Expected(name string, model map[string]string, args []string, opts inter
 	case "!":
 		return "", false
 	case "0":
-		return "sh", true
+		return arg0, true
 	case "@", "*":
 		v, ok := model[name]
 		return v, ok
@@ -93,6 +96,9 @@ func checkC20(c c20Case) error {
 			return fmt.Errorf("a fresh environment reports a variable named %q (taken from the process environment): Walk must only report variables", n)
 		}
 	}
+	// the caller may replace Args and Opts (the fields are exported): the
+	// special and positional parameters follow them
+	args, arg0 := c.Args, "sh"
 	argsSnap := oracle.Snapshot(env.Args)
 	aliasSnap := oracle.Snapshot(env.Aliases)
 	optsSnap := env.Opts
@@ -106,7 +112,7 @@ func checkC20(c c20Case) error {
 	}
 	invariantGet = func(step string) error {
 		for _, n := range c20Names {
-			want, wset := c20Expected(n, model, c.Args, env.Opts)
+			want, wset := c20Expected(n, model, args, env.Opts, arg0)
 			var got interp.Var
 			var gset bool
 			if e := guard(func() error { got, gset = env.Get(n); return nil }); e != nil {
@@ -168,6 +174,14 @@ func checkC20(c c20Case) error {
 			}
 		case "get", "walk":
 			// the invariant below does both
+		case "args":
+			env.Args = append([]string{}, op.Args...)
+			arg0, args = op.Args[0], op.Args[1:]
+			argsSnap = oracle.Snapshot(env.Args)
+		case "opts":
+			n, _ := strconv.Atoi(op.Value)
+			env.Opts = interp.Option(n)
+			optsSnap = env.Opts
 		case "expand":
 			cmd, _, err := parser.ParseCommand("c20", "_ "+op.Src)
 			if err != nil {
@@ -177,7 +191,7 @@ func checkC20(c c20Case) error {
 			snap := oracle.Snapshot(w)
 			pe := w[0].(*ast.ParamExp)
 			name := pe.Name.Value
-			before, wasSet := c20Expected(name, model, c.Args, env.Opts)
+			before, wasSet := c20Expected(name, model, args, env.Opts, arg0)
 			var gerr error
 			if e := guard(func() error { _, gerr = env.Expand(w, 0); return nil }); e != nil {
 				return fmt.Errorf("%s: Expand %v", step, e)
@@ -223,7 +237,7 @@ func checkC20(c c20Case) error {
 			snap := oracle.Snapshot(w)
 			pe := w[0].(*ast.ParamExp)
 			name := pe.Name.Value
-			before, wasSet := c20Expected(name, model, c.Args, env.Opts)
+			before, wasSet := c20Expected(name, model, args, env.Opts, arg0)
 			needed := !wasSet
 			if strings.HasPrefix(pe.Op, ":") {
 				needed = !wasSet || before == ""
@@ -243,7 +257,7 @@ func checkC20(c c20Case) error {
 					wordFails = true
 				case "${1:=v}":
 					// a positional parameter cannot be assigned: fails unless $1 has a value
-					p1, p1set := c20Expected("1", model, c.Args, env.Opts)
+					p1, p1set := c20Expected("1", model, args, env.Opts, arg0)
 					wordFails = !p1set || p1 == ""
 					val = p1
 				case "${b:=V}":
@@ -335,7 +349,7 @@ func checkC20(c c20Case) error {
 				return fmt.Errorf("harness: %q: %v", op.Src, err)
 			}
 			w := cmd.(*ast.Cmd).Expr.(*ast.SimpleCmd).Args[1]
-			before, wasSet := c20Expected(op.Name, model, c.Args, env.Opts)
+			before, wasSet := c20Expected(op.Name, model, args, env.Opts, arg0)
 			if e := guard(func() error { env.Expand(w, 0); return nil }); e != nil {
 				return fmt.Errorf("%s: Expand %v", step, e)
 			}
@@ -476,6 +490,12 @@ var c20Exprs = map[string]*ref.ANode{
 	"7++":       {Kind: "postinc", S: "7"},
 	"--(a + 4)": {Kind: "predec", S: "(a + 4)"},
 	"++b":       {Kind: "preinc", S: "b"},
+	// a conditional yields a value, not the variable it selected
+	"(1 ? a : b) = 5":  {Kind: "asg", Op: "=", S: "(1 ? a : b)", A: &ref.ANode{Kind: "num", S: "5"}},
+	"(0 ? a : b) += 5": {Kind: "asg", Op: "+=", S: "(0 ? a : b)", A: &ref.ANode{Kind: "num", S: "5"}},
+	"(1 ? _x : b)++":   {Kind: "postinc", S: "(1 ? _x : b)"},
+	"--(0 ? a : A)":    {Kind: "predec", S: "(0 ? a : A)"},
+	"(a + 0) = 2":      {Kind: "asg", Op: "=", S: "(a + 0)", A: &ref.ANode{Kind: "num", S: "2"}},
 	// an assignment in an operand that is not evaluated, and the same variable read afterwards
 	"(0 && (a = 5)) + (b = a)": {Kind: "bin", Op: "+",
 		A: &ref.ANode{Kind: "bin", Op: "&&", A: &ref.ANode{Kind: "num", S: "0"}, B: &ref.ANode{Kind: "asg", Op: "=", S: "a", A: &ref.ANode{Kind: "num", S: "5"}}},
@@ -538,6 +558,7 @@ func c20Alphabet() []c20Op {
 		ops = append(ops, c20Op{Kind: "eval", Src: src})
 	}
 	ops = append(ops, c20Op{Kind: "arith", Src: "a = 7"}, c20Op{Kind: "eval", Src: "--5"}, c20Op{Kind: "eval", Src: "0 && (1 +"}, c20Op{Kind: "walk"})
+	ops = append(ops, c20Op{Kind: "args", Args: []string{"other", "q1", "q2"}}, c20Op{Kind: "expand", Src: "${0:-W}"})
 	ops = append(ops, c20Op{Kind: "expandw", Src: "${a:=$((n_+=1))}"}, c20Op{Kind: "expandw", Src: "${A:?${y_:?}}"}, c20Op{Kind: "eval", Src: "(0 && (a = 5)) + (b = a)"})
 	return ops
 }
@@ -658,6 +679,14 @@ func TestC20(t *testing.T) {
 				}
 			case 7:
 				c.Ops = append(c.Ops, c20Op{Kind: "get"})
+				switch rapid.IntRange(0, 5).Draw(rt, "fields") {
+				case 0:
+					c.Ops[len(c.Ops)-1] = c20Op{Kind: "args", Args: rapid.SampledFrom([][]string{{"other", "x"}, {"-", "a b", "2", "3"}, {"sh", "1", "2", "3", "4", "5", "6", "7", "8", "9", "10", "11"}, {"é", "0"}}).Draw(rt, "newargs")}
+					st.Class("args_field_replaced")
+				case 1:
+					c.Ops[len(c.Ops)-1] = c20Op{Kind: "opts", Value: strconv.Itoa(int(rapid.SampledFrom([]interp.Option{0, interp.NoGlob, interp.NoUnset, interp.Verbose | interp.ErrExit}).Draw(rt, "newopts")))}
+					st.Class("opts_field_replaced")
+				}
 			case 0:
 				c.Ops = append(c.Ops, c20Op{Kind: "set", Name: rapid.SampledFrom(c20Names).Draw(rt, "name"), Value: rapid.SampledFrom(values).Draw(rt, "value")})
 			case 1:
